@@ -132,4 +132,10 @@ func runC12(cw *caseWriter, tier string, seed uint64) {
 		runScenarios(cw, 8, seed*100000, 120, 4)
 	}
 	runC104(cw, tier, seed, 0) // snapshot transfer inside the composed cluster system (Model/ClusterSnap.v)
+	// leadership transfers: round trips and a target that acknowledges TimeoutNow and is cut off (family 16)
+	if tier == "quick" {
+		runScenarios(cw, 16, seed*100000, 8, 4)
+	} else {
+		runScenarios(cw, 16, seed*100000, 150, 4)
+	}
 }
